@@ -19,6 +19,10 @@ type pxStream struct {
 	chunk2  bool // hand out two bytes at once when possible
 	reads   int
 	afterCl int // reads or writes that reached the stream after Close
+	// blocking: when the script is exhausted Read blocks until the stream is closed (like a
+	// connection whose peer stays silent) instead of reporting EOF
+	blocking bool
+	closedCh chan struct{}
 }
 
 func (s *pxStream) Read(p []byte) (int, error) {
@@ -46,6 +50,10 @@ func (s *pxStream) Read(p []byte) (int, error) {
 		return 0, io.ErrClosedPipe
 	}
 	if eof {
+		if s.blocking {
+			<-s.closedCh
+			return 0, io.ErrClosedPipe
+		}
 		return 0, io.EOF
 	}
 	p[0] = b0
@@ -76,18 +84,26 @@ func (s *pxStream) Write(p []byte) (int, error) {
 }
 
 func (s *pxStream) Close() error {
-	vrt.Atomic(func() { s.closed++ })
+	first := false
+	vrt.Atomic(func() {
+		s.closed++
+		first = s.closed == 1
+	})
+	if first && s.closedCh != nil {
+		close(s.closedCh)
+	}
 	return nil
 }
 
 // H_C20_Proxy: two scripted streams (0..2 bytes each, handed out in chunks of one or two bytes),
-// proxied in both directions. Whatever the interleaving of the two pumps: the bytes that reach
+// proxied in both directions; stream b either reports EOF after its script or stays silent
+// (its Read blocks until it is closed: the other pump has to close it). Whatever the interleaving of the two pumps: the bytes that reach
 // a stream are a prefix of the other stream's script, in order; if a stream's script was read
 // to its end before anything was closed, all of it was delivered; both streams end up closed,
 // the callback ran exactly twice and both pumps terminated (stuck class).
 func H_C20_Proxy() {
 	a := &pxStream{n: vrt.Int("na", 0, 2), chunk2: vrt.Bool("a2")}
-	b := &pxStream{n: vrt.Int("nb", 0, 2), chunk2: vrt.Bool("b2")}
+	b := &pxStream{n: vrt.Int("nb", 0, 2), chunk2: vrt.Bool("b2"), blocking: vrt.Bool("bblock"), closedCh: make(chan struct{})}
 	a.script = [3]byte{1, 2, 3}
 	b.script = [3]byte{11, 12, 13}
 	cbs := 0
